@@ -5,6 +5,7 @@ Trusted (tiny, exercised by every case through the AST tie): `ast_text`, `norm`.
 generator hands to the Lean specification with the text h_re.c prints for the RE_AST the real lexer+grammar built."""
 import binascii
 
+import re as re_mod
 INT_MAX = 2147483647
 RE_MAX_RANGE = 32767
 
@@ -452,4 +453,58 @@ def check_chain(core, chk, cases, amap, limit=6, skip=None):
                 chk.violation("chain_%s.json" % cid, {"kind": "chain structure (pieces, gaps) differs from the Lean model of yr_re_ast_split_at_chaining_point", "engine": "re",
                                                      "harness": "h_re", "case": c, "implementation": impl, "model_spec": model, "links_ok": ok_links}, no_input=True)
             bad += 1
+    return res, bad > 0
+
+
+# ---------------------------------------------------------------- shape tie: the hex grammar only builds ASTs inside HexG
+def check_hexg(core, chk, cases, amap, limit=6):
+    """for every hex string the real compiler accepted: every piece of its AST (AST text of the emit tie, cut at the
+    chaining points by the Lean model of yr_re_ast_split_at_chaining_point) has the shape of the inductive grammar
+    description `Gram .piece` (Lemmas/ReHexGram.lean) and lies in the fragment of the completeness theorems: hexG piece,
+    hexG (mirror piece), maskOK piece (Model/ReHexG.lean) — the hypothesis `HexG r` / `HexG (rev r)` / `MaskOK r` of
+    Thm/C02 vm_complete_hex / hex_scan_complete_partial as a checked fact."""
+    lines, want = [], {}
+    res = {"hexg_checked": 0, "hexg_pieces": 0, "hexg_false": 0, "gram_false": 0, "hexg_rev_false": 0, "mask_false": 0, "whole_is_tokens": 0}
+    for c in cases:
+        cid = c.split(" ", 1)[0]
+        toks = dict(t.split("=", 1) for t in c.split()[1:] if "=" in t)
+        al = amap.get(cid, "")
+        tok = [t for t in al.split() if t.startswith("ast=")]
+        if "mstr" in toks or " OK " not in al or not tok or tok[0] == "ast=-":
+            continue
+        real_ast = tok[0].split(":", 2)[2].split(";")[0]          # the AST the real hex parser built
+        want[cid] = (c, real_ast)
+        lines.append("%s re=%s x=1" % (cid, real_ast))
+    out, _ = run_robust(core, [core.driver_path(), "rehexg"], lines, chunk_timeout=300, single_timeout=30)
+    bad = 0
+    for cid, (c, real_ast) in want.items():
+        ml = out.get(cid)
+        if ml is None:
+            continue
+        t = ml.split()
+        if len(t) < 8 or t[1] != "G":
+            res["hexg_false"] += 1
+            if bad < limit:
+                chk.violation("hexg_%s.json" % cid, {"kind": "AST of an accepted hex string not understood by the shape driver", "engine": "re",
+                                                    "harness": "h_re", "case": c, "implementation": real_ast[:600], "model_spec": ml}, no_input=True)
+            bad += 1
+            continue
+        n = int(t[2])
+        f = dict(x.split("=", 1) for x in t[3:])
+        res["hexg_checked"] += 1
+        res["hexg_pieces"] += n
+        res["whole_is_tokens"] += int(f.get("toks") == "1")
+        g, h, hr, mk = (int(f.get(k, -1)) for k in ("gram", "hexg", "hexgrev", "mask"))
+        if (g, h, hr, mk) == (n, n, n, n):
+            continue
+        # a jump whose upper bound does not fit the 16-bit operand (only possible for a jump that directly follows a chaining
+        # point of the root concatenation: it is not a chaining point itself, having no previous sibling in its piece)
+        big = [m for m in re_mod.findall(r"J[gl](\d+),(\d+)", real_ast) if int(m[1]) >= 65536]
+        res["gram_false"] += int(g != n); res["hexg_rev_false"] += int(hr != n); res["mask_false"] += int(mk != n)
+        res["hexg_false"] += int(h != n or hr != n)
+        if bad < limit:
+            chk.violation("hexg_%s.json" % cid, {"kind": "the real hex grammar built an AST outside the fragment HexG of the completeness theorems "
+                                                        "(pieces: %d, Gram %d, hexG %d, hexG mirror %d, maskOK %d)" % (n, g, h, hr, mk), "engine": "re",
+                                                "harness": "h_re", "case": c, "implementation": real_ast[:600], "model_spec": ml, "jumps_ge_65536": big[:4]}, no_input=True)
+        bad += 1
     return res, bad > 0
